@@ -110,7 +110,12 @@ def detect(i, tier, checks):
             env = dict(os.environ, VERIF_REPO=d, VERIF_EVIDENCE_DIR=os.path.join(d, "_ev"), VERIF_REPLAY_DIR=os.path.join(d, "_rp"),
                        VERIF_BUILD_ROOT=os.path.join(d, "_build"))
             t0 = time.time()
-            r = subprocess.run([os.path.join(V, "check"), c, tier], stdout=subprocess.PIPE, stderr=subprocess.STDOUT, text=True, env=env, cwd=V)
+            try:
+                r = subprocess.run([os.path.join(V, "check"), c, tier], stdout=subprocess.PIPE, stderr=subprocess.STDOUT, text=True, env=env, cwd=V, timeout=2400)
+            except subprocess.TimeoutExpired as e:
+                print(i, c, tier, "CHECK DID NOT FINISH within 2400 s")
+                subprocess.run([os.path.join(V, "tools", "cleanup.sh")])
+                continue
             sigs = sorted(set(l.split("signature=")[1].split()[0] for l in r.stdout.splitlines() if "signature=" in l))
             out[c] = {"tier": tier, "rc": r.returncode, "signatures": sigs[:8], "wall_s": round(time.time() - t0, 1)}
             print(i, c, tier, "rc=%d" % r.returncode, "DETECTED" if r.returncode == 1 else ("MISSED" if r.returncode == 0 else "INCONCLUSIVE"), sigs[:4])
